@@ -11,6 +11,16 @@ version, every aimable strategy configuration x every `where` in
 {0..k-1, None} is applied (plus, on the original program, where=sites[j],
 where in {k, k+1, -1} and the parameter variants), up to the tier's depth.
 
+User rewrite rules (fpy2.rewrite: find_all lists the matches, Rewrite.apply takes
+where in {0..k-1, None, match cursor}) are part of the same space: a statement
+rule whose replacement is longer than its pattern (1->2) and an expression rule
+sit in the history alphabet next to the built-in strategies, a same-size (1->1)
+and a shorter (2->1, window matches) statement rule are applied to the original
+program; skeletons P1/P2 hold several matches at different depths (a match
+directly followed by a sibling whose block starts with another, a nested match
+before an outer one, adjacent matches).  Documented refusals (no match at all ->
+TransformReferenceError, overlapping windows -> TransformDeclined) are expected.
+
 Oracle (all of it from an independent reading of the AST -- own walk, tuple
 paths, own candidate enumeration, marker tokens; see progen_c19.Reading):
 
@@ -64,7 +74,8 @@ from fpy2.ast import fpyast as A
 from fpy2.ast.fpyast import Integer
 from fpy2 import strategies as ST
 from fpy2.strategies import (
-    BlockCursor, ExprCursor, StmtCursor, TransformError, TransformReferenceError, refusals, sites,
+    BlockCursor, ExprCursor, StmtCursor, TransformDeclined, TransformError, TransformReferenceError,
+    refusals, sites,
 )
 from fpy2.transform import ForUnrollStrategy, SplitLoopStrategy
 
@@ -73,7 +84,8 @@ from fpy2.transform import ForUnrollStrategy, SplitLoopStrategy
 # Strategy configurations
 
 class Cfg:
-    def __init__(self, name, strat, kind, list_kw, apply, cands, core=True):
+    def __init__(self, name, strat, kind, list_kw, apply, cands, core=True, lister=None, window=1,
+                 merges=False):
         self.name = name          # unique label
         self.strat = strat        # the strategy callable (key of _SITES)
         self.kind = kind          # 'stmt' | 'expr'
@@ -81,6 +93,9 @@ class Cfg:
         self.apply = apply        # (func, where, module) -> Function
         self.cands = cands        # (Reading, module) -> ('stmt', [paths]) | ('expr', [nodes], certain)
         self.core = core          # part of the history alphabet (else: original program only)
+        self.lister = lister      # user rule: (func, module) -> matches (no refusals); None: sites()/refusals()
+        self.window = window      # statements one site spans (user statement rules)
+        self.merges = merges      # several statements become one: their markers legitimately meet
 
 
 def _round_cfg(name, strat, casts, **kw):
@@ -130,6 +145,20 @@ def _inline_cfg(name, only, core, recursive=True):
                lambda rd, m: ('expr', rd.fpy_calls(funcs(m)), True), core=core)
 
 
+def _rule_cfg(name, lhs, rhs, kind, cands, core, window=1):
+    from fpy2.rewrite import Rewrite, find_all
+
+    def rule(m):
+        cache = m.__dict__.setdefault('_c19_rules', {})
+        if name not in cache:
+            cache[name] = Rewrite(getattr(m, lhs), getattr(m, rhs))
+        return cache[name]
+    return Cfg(name, None, kind, lambda m: {},
+               lambda f, w, m: rule(m).apply(f, w),
+               cands, core=core, lister=lambda f, m: find_all(getattr(m, lhs), f),
+               window=window, merges=window > 1)
+
+
 CONFIGS: list[Cfg] = [
     _round_cfg('unfold_special', ST.unfold_special, True),
     _round_cfg('unfold_neg_zero', ST.unfold_neg_zero, False),
@@ -141,6 +170,13 @@ CONFIGS: list[Cfg] = [
     _unroll_for_cfg('unroll_for:1:PEEL', 1, 'PEEL', True),
     _unroll_while_cfg('unroll_while:1', 1, True),
     _inline_cfg('inline', None, True),
+    # user rewrite rules through fpy2.rewrite (find_all / Rewrite.apply): replacement longer than the
+    # pattern, and an expression rule, in the history alphabet; same size and shorter on the original
+    _rule_cfg('rule:stmt-1to2', 'sl_l', 'sl_r', 'stmt', lambda rd, m: ('stmt', rd.self_increments(), True), True),
+    _rule_cfg('rule:expr-mul', 'em_l', 'em_r', 'expr', lambda rd, m: ('expr', rd.products(), True), True),
+    _rule_cfg('rule:stmt-1to1', 'sl_l', 'ss_r', 'stmt', lambda rd, m: ('stmt', rd.self_increments(), True), False),
+    _rule_cfg('rule:stmt-2to1', 'sh_l', 'sh_r', 'stmt', lambda rd, m: ('stmt', rd.increment_pairs(), True), False,
+              window=2),
     # parameter variants: exercised on the original program of every history tree
     _round_cfg('unfold_overflow:early', ST.unfold_overflow, False, early_check=True),
     _insert_cfg('insert_round:FP16', 'FP16', False),
@@ -158,7 +194,7 @@ CFG = {c.name: c for c in CONFIGS}
 
 def _covers_every_aimable_strategy():
     from fpy2.strategies.sites import _SITES
-    missing = set(_SITES) - {c.strat for c in CONFIGS}
+    missing = set(_SITES) - {c.strat for c in CONFIGS if c.strat is not None}
     if missing:
         raise RuntimeError(f'aimable strategies without a configuration: {missing}')
 
@@ -225,8 +261,11 @@ class Explorer:
         kw = cfg.list_kw(cx.module)
         r.count('transitions', 2)
         try:
-            ss = sites(cfg.strat, st.func, **kw)
-            rr = refusals(cfg.strat, st.func, **kw)
+            if cfg.lister is not None:
+                ss, rr = cfg.lister(st.func, cx.module), []
+            else:
+                ss = sites(cfg.strat, st.func, **kw)
+                rr = refusals(cfg.strat, st.func, **kw)
         except TransformError as e:
             self.bad('listing', cfg.name, 'listing-raises:' + type(e).__name__, st.hist,
                      f'sites/refusals raised {e!r}\n--- program ---\n{st.func.format()}')
@@ -240,6 +279,8 @@ class Explorer:
                 r.notes.append(note)
             return None
         want_kind = StmtCursor if cfg.kind == 'stmt' else ExprCursor
+        if cfg.window > 1:
+            want_kind = BlockCursor
         got = cfg.cands(st.rd, cx.module)
         certain = got[2]
         ok = True
@@ -260,13 +301,21 @@ class Explorer:
                          f'refusal at {c} has reason {why!r}')
                 ok = False
         if cfg.kind == 'stmt':
-            skeys = [G.path_tuple(c.path) for c in ss]
+            if cfg.window > 1:
+                for c in ss:
+                    if len(c.span) != cfg.window:
+                        self.bad('listing', cfg.name, 'match-of-wrong-length', st.hist, f'match {c}')
+                        return None
+                skeys = [G.block_tuple(c.block_path) + (c.span.start,) for c in ss]
+            else:
+                skeys = [G.path_tuple(c.path) for c in ss]
             rkeys = [G.path_tuple(c.path) for c, _ in rr]
             cand = list(got[1])
             show = lambda k: str(k)  # noqa: E731
             # the cursor must resolve to the node my walk finds at that path
             for c, k in zip(ss, skeys):
-                if st.rd.by_path.get(k) is not c.resolve():
+                res = c.resolve()
+                if st.rd.by_path.get(k) is not (res[0] if cfg.window > 1 else res):
                     self.bad('listing', cfg.name, 'site-resolves-elsewhere', st.hist, f'site {c} path {k}')
                     ok = False
         else:
@@ -312,9 +361,9 @@ class Explorer:
         if not ok:
             return None
         if cfg.kind == 'stmt':
-            spaths = list(skeys)
+            spaths = [[k[:-1] + (k[-1] + off,) for off in range(cfg.window)] for k in skeys]
         else:
-            spaths = [G.expr_stmt_tuple(c.path) for c in ss]
+            spaths = [[G.expr_stmt_tuple(c.path)] for c in ss]
         return skeys, list(ss), spaths
 
     # ---- one application ---------------------------------------------------
@@ -329,6 +378,8 @@ class Explorer:
         # an expression cursor exactly one
         if cfg.kind == 'expr':
             return [j]
+        if cfg.window > 1:
+            return [j]          # a window is taken only in full; overlapping ones are handled by the caller
         return [i for i, k in enumerate(skeys) if G.beneath(k, skeys[j])]
 
     def apply(self, st: State, cfg: Cfg, skeys, scur, spaths, w):
@@ -343,6 +394,25 @@ class Explorer:
             where = scur[w[1]]
         r.count('transitions')
         r.count('evaluations')
+        expect = None
+        if cfg.lister is not None and w == 'none' and not skeys:
+            expect = TransformReferenceError       # documented: the pattern matches nothing
+        elif cfg.window > 1 and w == 'none' and any(
+                a[:-1] == b[:-1] and abs(a[-1] - b[-1]) < cfg.window for a in skeys for b in skeys if a != b):
+            expect = TransformDeclined             # documented: overlapping matches cannot both be rewritten
+        if expect is not None:
+            try:
+                cfg.apply(st.func, where, cx.module)
+            except expect:
+                r.outcomes[f'rule-declines:{expect.__name__}'] += 1
+                return None
+            except Exception as e:  # noqa: BLE001
+                self.bad('where', cfg.name, 'documented-refusal-raises:' + type(e).__name__, hist,
+                         f'where={w}: expected {expect.__name__}, got {e!r}\n--- program ---\n{st.func.format()}')
+                return None
+            self.bad('where', cfg.name, 'documented-refusal-accepted', hist,
+                     f'where={w} with matches {skeys}: expected {expect.__name__}\n--- program ---\n{st.func.format()}')
+            return None
         try:
             out = cfg.apply(st.func, where, cx.module)
         except Exception as e:  # noqa: BLE001
@@ -369,7 +439,7 @@ class Explorer:
         good = True
 
         # every edit lies at or under a selected site
-        sel_paths = [site_stmt[i] for i in sel]
+        sel_paths = [q for i in sel for q in site_stmt[i]]
         for blk, idx, rem, ins in edits:
             at = [blk + (i,) for i in range(idx, idx + max(rem, 1))]
             if not all(any(G.beneath(p, q) for q in sel_paths) for p in at):
@@ -378,8 +448,7 @@ class Explorer:
                          f'inserted={ins} lies outside\n--- before ---\n{st.func.format()}\n--- after ---\n{out.format()}')
                 good = False
         # every selected site is covered by an edit
-        for i in sel:
-            q = site_stmt[i]
+        for i, q in [(i, q) for i in sel for q in site_stmt[i]]:
             if not (any(G.beneath(q, s) for s in spans) or q in ins_at or q in dirty):
                 self.bad('where', cfg.name, 'selected-site-not-in-edit-log', hist,
                          f'where={w}: site {i} at {q} is covered by no reported edit {edits}\n'
@@ -390,8 +459,8 @@ class Explorer:
         def touched(p):
             if any(G.beneath(p, s) for s in spans):
                 return True
-            if p in dirty:
-                return True
+            if p in dirty or any(G.strictly_beneath(d, p) for d in dirty):
+                return True      # its expressions, or those of a statement it holds, were rewritten
             for blk, _, _, _ in edits:
                 if len(blk) > len(p) and blk[:len(p)] == p:
                     return True      # holds a rewritten block: its text changes
@@ -482,7 +551,7 @@ class Explorer:
                            if isinstance(s, A.If1Stmt) and s.cond.format() == cond)
 
             for i, q in enumerate(skeys):
-                t = rd.text(q)
+                t = '\n'.join(rd.text(x) for x in site_stmt[i])
                 under_sel = any(G.strictly_beneath(q, s) for s in sel_paths)
                 holds_sel = any(G.strictly_beneath(s, q) for s in sel_paths)
                 cond = rd.by_path[q].cond.format() if wraps else None
@@ -639,6 +708,8 @@ class Explorer:
                          {'cursor': list(p0)})
                 continue
             foreign = (tk & cx.all_tok) - own
+            if any(CFG[h[0]].merges for h in st.hist):
+                foreign = frozenset()      # a many-to-one rule legitimately joins statements
             if foreign:
                 self.bad('forward', last, 'image-holds-unrelated-statement', st.hist,
                          f'cursor on {p0}: image {img} holds marker(s) {sorted(foreign)} of unrelated statements\n'
@@ -777,7 +848,7 @@ def explore_program(r: ShardResult, name: str, src: str, depth: int, variants=Tr
 QUICK_ALPHABET = ('RfU', 'Rx', 'C1')
 DEEP_ALPHABET = ('RfU', 'Rx', 'C1')
 FULL_ALPHABET = ('RfU', 'Rr', 'Rx', 'Rs', 'R2', 'C1', 'C2', 'C11', 'Cn', 'M2')   # A, Rn, Rc, C3: fixed leaves only
-K_SKELETONS = tuple(k for k, _, _ in G.SKELETONS if k[0] in 'KH')
+K_SKELETONS = tuple(k for k, _, _ in G.SKELETONS if k[0] in 'KHP')
 D_SKELETONS = tuple(k for k, _, _ in G.SKELETONS if k.startswith('D'))
 EXTRA_PER_SEED = 8
 
@@ -792,10 +863,12 @@ def _programs(skeletons, alphabet):
 
 class Check(BaseCheck):
     pid = 'C19'
-    rule = ('every program of the grammar (8 loop-nest skeletons x every assignment of 2 leaf slots from the '
-            'tier alphabet; each statement uniquely marked) x every history of aimable-strategy applications '
-            '(10 strategies in the history alphabet x where in {0..k-1, None}; on the original program also '
-            'where=sites[j], where in {k,k+1,-1} and 10 parameter variants) up to the tier depth, each step of '
+    rule = ('every program of the grammar (12 skeletons -- 8 loop nests, 2 with arithmetic where insert_round '
+            'cannot put a block, 2 with several user-rule matches at different depths -- x every assignment of '
+            'their 1-2 leaf slots from the tier alphabet; each statement uniquely marked) x every history of '
+            'rewrites (10 aimable strategies + 2 user rewrite rules in the history alphabet x where in '
+            '{0..k-1, None}; on the original program also where=sites[j], where in {k,k+1,-1}, 10 parameter '
+            'variants and 2 more user rules) up to the tier depth, each step of '
             'which changes the program except possibly the last; listing, where and forward oracles from an '
             'independent reading of the AST.  nontrivial = histories whose last step changed the program and '
             'after which at least one original cursor moved, became a region or raised')
@@ -818,11 +891,11 @@ class Check(BaseCheck):
     def bounds(self):
         if self.tier == 'quick':
             return {'skeletons': list(K_SKELETONS), 'alphabet': list(QUICK_ALPHABET),
-                    'programs_core': len(K_SKELETONS) * len(QUICK_ALPHABET) ** 2,
+                    'programs_core': len(_programs(K_SKELETONS, QUICK_ALPHABET)),
                     'extra_programs_rotated_by_seed': EXTRA_PER_SEED, 'history_depth': self.depth,
                     'strategy_configs': len(CONFIGS), 'history_alphabet': [c.name for c in CONFIGS if c.core]}
         return {'skeletons': list(K_SKELETONS), 'alphabet': list(FULL_ALPHABET),
-                'programs': len(K_SKELETONS) * len(FULL_ALPHABET) ** 2, 'history_depth': self.depth,
+                'programs': len(_programs(K_SKELETONS, FULL_ALPHABET)), 'history_depth': self.depth,
                 'deep_skeletons': list(D_SKELETONS), 'deep_alphabet': list(DEEP_ALPHABET),
                 'deep_programs': len(D_SKELETONS) * len(DEEP_ALPHABET) ** 2,
                 'deep_history_depth': self.deep_depth, 'strategy_configs': len(CONFIGS),
